@@ -314,55 +314,131 @@ Proof. reflexivity. Qed.
 Lemma join_hd sep x l : exists tl, join sep (x :: l) = x ++ tl.
 Proof. destruct l as [|y l]; [exists []; cbn [join]; rewrite app_nil_r; reflexivity|]. rewrite join_cons2. eexists. reflexivity. Qed.
 
+(* the first piece of a split has no separator and is followed by nothing or by a separator *)
+Lemma first_seg_decomp sep rest s more : split_on sep rest = s :: more ->
+  ~ In sep s /\ ((more = [] /\ rest = s) \/ exists tl, rest = s ++ sep :: tl /\ more = split_on sep tl).
+Proof.
+  intros E. pose proof (split_on_parts_nosep sep rest) as Hf. rewrite E in Hf.
+  inversion Hf as [|? ? Hs _]; subst. split; [exact Hs|].
+  pose proof (join_split sep rest) as Hj. rewrite E in Hj.
+  destruct more as [|y l].
+  - left. cbn [join] in Hj. split; [reflexivity|symmetry; exact Hj].
+  - right. rewrite join_cons2 in Hj. cbn [app] in Hj. exists (join [sep] (y :: l)). split; [symmetry; exact Hj|].
+    rewrite <- Hj in E. rewrite split_on_app in E by exact Hs. injection E as E. symmetry. exact E.
+Qed.
+
+Lemma before_at_decomp seg :
+  ~ In AT (before_at seg) /\ (seg = before_at seg \/ exists tl, seg = before_at seg ++ AT :: tl).
+Proof.
+  unfold before_at. destruct (split_on AT seg) as [|x l] eqn:E; [exfalso; eapply split_on_nonnil; exact E|].
+  destruct (first_seg_decomp _ _ _ _ E) as [Hn [[_ H]|[tl [H _]]]]; (split; [exact Hn|]); [left; exact H|].
+  right. exists tl. exact H.
+Qed.
+
+(* [host] sits in [path] right after [pre]; it contains neither a backslash nor an at sign and is followed
+   by the end of the path, a backslash or an at sign *)
+Definition host_at (path pre host : bytes) : Prop :=
+  exists post, path = pre ++ host ++ post /\ ~ In SEP host /\ ~ In AT host /\
+    (post = [] \/ exists tl, post = SEP :: tl \/ post = AT :: tl).
+
+Lemma host_in_value path pre s rest : path = pre ++ s ++ rest -> ~ In SEP s ->
+  (rest = [] \/ exists tl, rest = SEP :: tl) -> host_at path pre (before_at s).
+Proof.
+  intros -> Hns Hrest. destruct (before_at_decomp s) as [Hna Hs]. remember (before_at s) as h eqn:Eh.
+  assert (Hnsh : ~ In SEP h).
+  { intros Hin. apply Hns. destruct Hs as [Hs|[tl Hs]]; rewrite Hs; [exact Hin|apply in_or_app; left; exact Hin]. }
+  destruct Hs as [Hs|[tl Hs]].
+  - exists rest. rewrite <- Hs. split; [reflexivity|]. split; [rewrite Hs; exact Hnsh|]. split; [rewrite Hs; exact Hna|].
+    destruct Hrest as [->|[tl ->]]; [left; reflexivity|right; exists tl; left; reflexivity].
+  - exists (AT :: tl ++ rest). split; [|split; [exact Hnsh|split; [exact Hna|right; eexists; right; reflexivity]]].
+    clear Eh. subst s. rewrite <- !app_assoc. reflexivity.
+Qed.
+
 (* UNC paths: the host child covers exactly the host name *)
 Lemma unc_host_position path s2 : startswith path PFX_UNC = true ->
-  nth_error (split_on SEP path) 2 = Some s2 ->
-  exists b, path = PFX_UNC ++ before_at s2 ++ b.
+  nth_error (split_on SEP path) 2 = Some s2 -> host_at path PFX_UNC (before_at s2).
 Proof.
   intros Hu H2. destruct (startswith_inv _ _ Hu) as [rest ->].
   unfold PFX_UNC in H2. cbn [app] in H2. rewrite !split_on_sep_cons in H2. cbn [nth_error] in H2.
-  destruct (split_on_hd SEP rest) as [x [l [tl [E Hr]]]]. rewrite E in H2. cbn [nth_error] in H2.
-  injection H2 as ->. destruct (before_at_prefix s2) as [tl2 Hb].
-  exists (tl2 ++ tl). f_equal. rewrite (app_assoc (before_at s2)), <- Hb. exact Hr.
+  destruct (split_on SEP rest) as [|x more] eqn:E; [discriminate|]. cbn [nth_error] in H2. injection H2 as ->.
+  destruct (first_seg_decomp _ _ _ _ E) as [Hn Hr].
+  destruct Hr as [[_ Hr]|[tl [Hr _]]].
+  - apply (host_in_value _ PFX_UNC s2 []); [rewrite app_nil_r, Hr; reflexivity|exact Hn|left; reflexivity].
+  - apply (host_in_value _ PFX_UNC s2 (SEP :: tl)); [rewrite Hr; reflexivity|exact Hn|right; eexists; reflexivity].
 Qed.
 
 Lemma is_device_path_inv path : is_device_path path = true ->
-  exists x rest, path = SEP :: SEP :: x :: rest /\ (x = DOT \/ x = 63%N).
+  exists x rest, path = SEP :: SEP :: x :: SEP :: rest /\ (x = DOT \/ x = 63%N).
 Proof.
   unfold is_device_path. intros H. apply orb_true_iff in H.
   destruct H as [H|H]; apply startswith_inv in H; destruct H as [tl ->]; eexists _, tl; split; try reflexivity; auto.
 Qed.
 
+(* a device path is also a path that starts with two backslashes: the order of the two tests matters *)
+Lemma is_device_path_unc path : is_device_path path = true -> startswith path PFX_UNC = true.
+Proof. intros H. destruct (is_device_path_inv _ H) as [x [rest [-> _]]]. reflexivity. Qed.
+
+(* the type of a node is determined by how its (normalised) value starts: device paths are exactly the
+   values that begin with two backslashes, a dot or question mark and a THIRD backslash *)
+Corollary windows_path_node_type_iff is_domain data m n :
+  windows_path_node is_domain data m = Ok n ->
+  (n_ty n = DEVICE_PATH_TYPE <->
+     exists x rest, (x = DOT \/ x = 63%N) /\ n_val n = SEP :: SEP :: x :: SEP :: rest) /\
+  (n_ty n = UNC_PATH_TYPE <-> is_device_path (n_val n) = false /\ startswith (n_val n) PFX_UNC = true) /\
+  (n_ty n = WINDOWS_PATH_TYPE <-> startswith (n_val n) PFX_UNC = false).
+Proof.
+  intros H. destruct (windows_path_node_value _ _ _ _ H) as [_ [_ [_ [_ [_ Ht]]]]].
+  assert (Hdev : is_device_path (n_val n) = true <->
+                 exists x rest, (x = DOT \/ x = 63%N) /\ n_val n = SEP :: SEP :: x :: SEP :: rest).
+  { split.
+    - intros Hd. destruct (is_device_path_inv _ Hd) as [x [rest [Hp Hx]]]. exists x, rest. split; assumption.
+    - intros [x [rest [[->| ->] ->]]]; reflexivity. }
+  destruct Ht as [[Ht Hd]|[[Ht [Hd Hu]]|[Ht Hu]]]; rewrite Ht.
+  - pose proof (is_device_path_unc _ Hd) as Hu. split; [|split].
+    + split; [intros _; apply Hdev; exact Hd|reflexivity].
+    + split; [discriminate|intros [Hd' _]; congruence].
+    + split; [discriminate|congruence].
+  - split; [|split].
+    + split; [discriminate|intros Hx; apply Hdev in Hx; congruence].
+    + split; [intros _; split; assumption|reflexivity].
+    + split; [discriminate|congruence].
+  - assert (Hd : is_device_path (n_val n) = false).
+    { destruct (is_device_path (n_val n)) eqn:Hd; [|reflexivity]. apply is_device_path_unc in Hd. congruence. }
+    split; [|split].
+    + split; [discriminate|intros Hx; apply Hdev in Hx; congruence].
+    + split; [discriminate|intros [_ Hu']; congruence].
+    + split; [intros _; exact Hu|reflexivity].
+Qed.
+
+(* segments 0, 1, 2 of a device path are empty, empty and the single byte '.' or '?' *)
+Lemma device_segments path : is_device_path path = true ->
+  exists x rest, (x = DOT \/ x = 63%N) /\ path = SEP :: SEP :: x :: SEP :: rest /\
+    split_on SEP path = [] :: [] :: [x] :: split_on SEP rest.
+Proof.
+  intros Hd. destruct (is_device_path_inv _ Hd) as [x [rest [-> Hx]]]. exists x, rest.
+  split; [exact Hx|]. split; [reflexivity|]. rewrite !split_on_sep_cons. f_equal. f_equal.
+  apply (split_on_app SEP [x] rest). intros [E|[]]. destruct Hx as [->| ->]; discriminate E.
+Qed.
+
 Lemma blen_upper_unc s3 : upper s3 = UNC_NAME -> blen s3 = 3.
 Proof. intros H. apply (f_equal (@blen N)) in H. unfold upper in H. rewrite blen_map in H. exact H. Qed.
 
-(* device paths: decomposition around segments 2, 3, 4 *)
+(* device paths: segment 4 starts at offset 4 + len(segment 3) + 1 *)
 Lemma device_host_position path s3 s4 : is_device_path path = true ->
   nth_error (split_on SEP path) 3 = Some s3 -> nth_error (split_on SEP path) 4 = Some s4 ->
-  exists g2 b, g2 <> [] /\ path = (PFX_UNC ++ g2 ++ [SEP] ++ s3 ++ [SEP]) ++ before_at s4 ++ b /\
-    (forall x tl, path = SEP :: SEP :: x :: SEP :: tl -> g2 = [x]).
+  exists x, (x = DOT \/ x = 63%N) /\ host_at path ([SEP; SEP; x; SEP] ++ s3 ++ [SEP]) (before_at s4).
 Proof.
-  intros Hd H3 H4. destruct (is_device_path_inv _ Hd) as [x [rest [-> Hx]]].
-  rewrite !split_on_sep_cons in H3, H4. cbn [nth_error] in H3, H4.
-  pose proof (join_split SEP (x :: rest)) as Hj.
-  destruct (split_on SEP (x :: rest)) as [|g2 more] eqn:E; [discriminate|].
-  cbn [nth_error] in H3, H4.
-  destruct more as [|s3' more]; [discriminate|]. cbn [nth_error] in H3, H4. injection H3 as ->.
-  destruct more as [|s4' more]; [discriminate|]. cbn [nth_error] in H4. injection H4 as ->.
-  rewrite !join_cons2 in Hj. destruct (join_hd [SEP] s4 more) as [tl Htl]. rewrite Htl in Hj.
-  destruct (before_at_prefix s4) as [tl2 Hb].
-  exists g2, (tl2 ++ tl). split; [|split].
-  - intros ->. cbn [app] in Hj. injection Hj as Hx' _. destruct Hx as [->| ->]; discriminate.
-  - unfold PFX_UNC. cbn [app]. f_equal. f_equal. rewrite <- Hj. rewrite <- !app_assoc. cbn [app].
-    f_equal. f_equal. rewrite <- (app_assoc s3). cbn [app]. f_equal. f_equal.
-    rewrite (app_assoc (before_at s4)), <- Hb. reflexivity.
-  - intros x' tl' Hp. injection Hp as -> ->. cbn [split_on] in E.
-    destruct (x' =? SEP)%N eqn:Ex; [apply N.eqb_eq in Ex; destruct Hx as [->| ->]; discriminate|].
-    rewrite N.eqb_refl in E. injection E as <- _. reflexivity.
+  intros Hd H3 H4. destruct (device_segments _ Hd) as [x [rest [Hx [-> Hsp]]]].
+  rewrite Hsp in H3, H4. cbn [nth_error] in H3, H4. exists x. split; [exact Hx|].
+  destruct (split_on SEP rest) as [|s3' more] eqn:E3; [discriminate|]. cbn [nth_error] in H3, H4. injection H3 as ->.
+  destruct (first_seg_decomp _ _ _ _ E3) as [_ [[-> _]|[tl [Hr Hm]]]]; [discriminate|].
+  rewrite Hm in H4. destruct (split_on SEP tl) as [|s4' more'] eqn:E4; [discriminate|]. cbn [nth_error] in H4. injection H4 as ->.
+  destruct (first_seg_decomp _ _ _ _ E4) as [Hn [[_ Ht]|[tl' [Ht _]]]].
+  - apply (host_in_value _ _ s4 []); [|exact Hn|left; reflexivity].
+    rewrite Hr, Ht, app_nil_r. cbn [app]. rewrite <- app_assoc. reflexivity.
+  - apply (host_in_value _ _ s4 (SEP :: tl')); [|exact Hn|right; eexists; reflexivity].
+    rewrite Hr, Ht. cbn [app]. rewrite <- app_assoc. reflexivity.
 Qed.
-
-Definition device_prefix4 (path : bytes) : bool :=
-  startswith path (PFX_DEV_DOT ++ [SEP]) || startswith path (PFX_DEV_QM ++ [SEP]).
 
 Lemma file_kid_ok path fn fk : seg_last (split_on SEP path) = Ok fn -> file_kid_spec path fn fk ->
   Forall (fun c => child_in_bounds path c /\ n_val c = original path c /\ n_val c = fn /\ n_kids c = [] /\
@@ -374,7 +450,7 @@ Proof.
   repeat split; lia.
 Qed.
 
-(* every child span lies inside the value - also in the device branch with its constant offset 8 *)
+(* every child span lies inside the value *)
 Theorem windows_path_node_children_in_bounds is_domain data m n :
   windows_path_node is_domain data m = Ok n ->
   Forall (child_in_bounds (n_val n)) (n_kids n).
@@ -383,38 +459,74 @@ Proof.
   cbn [n_val n_kids]. set (path := ntpath_normpath (group data m 0)) in *.
   apply Forall_app. split.
   - destruct Hh as [[Hd [_ [s3 [H3 [[Hu [s4 [H4 Hk]]]|[_ ->]]]]]]|[[Hd [Hu [_ [s2 [H2 Hk]]]]]|[_ [_ [_ ->]]]]]; try constructor.
-    + destruct (device_host_position _ _ _ Hd H3 H4) as [g2 [b [Hg [Hp _]]]].
+    + destruct (device_host_position _ _ _ Hd H3 H4) as [x [_ [b [Hp _]]]].
       eapply host_kid_in_bounds; [exact Hk|lia|]. rewrite Hp. rewrite !blen_app.
-      rewrite (blen_upper_unc _ Hu). change (blen PFX_UNC) with 2. change (blen [SEP]) with 1.
-      assert (1 <= blen g2) by (destruct g2; [congruence|unfold blen; cbn [List.length]; lia]).
+      rewrite (blen_upper_unc _ Hu). change (blen [SEP; SEP; x; SEP]) with 4. change (blen [SEP]) with 1.
       pose proof (blen_nonneg b). lia.
-    + destruct (unc_host_position _ _ Hu H2) as [b Hp].
+    + destruct (unc_host_position _ _ Hu H2) as [b [Hp _]].
       eapply host_kid_in_bounds; [exact Hk|lia|]. rewrite Hp. rewrite !blen_app. change (blen PFX_UNC) with 2.
       pose proof (blen_nonneg b). lia.
   - eapply Forall_impl; [|apply (file_kid_ok _ _ _ Hl Hf)]. intros c Hc. apply Hc.
 Qed.
 
-(* children index the right bytes of the value, for every node that is not a device path and for the
-   device paths whose third segment is exactly '.' or '?' *)
+(* children index the right bytes of the value, for EVERY node: a device path begins with two backslashes,
+   one byte and a third backslash, so when segment 3 is the three bytes of UNC segment 4 begins at the
+   constant offset 8 of the source *)
 Theorem windows_path_node_children_faithful is_domain data m n :
   windows_path_node is_domain data m = Ok n ->
-  n_ty n <> DEVICE_PATH_TYPE \/ device_prefix4 (n_val n) = true ->
   Forall (child_faithful (n_val n)) (n_kids n).
 Proof.
-  intros H Hcond. destruct (windows_path_node_inv _ _ _ _ H) as [ty [hk [fk [fn [-> [Hh [Hl Hf]]]]]]].
+  intros H. destruct (windows_path_node_inv _ _ _ _ H) as [ty [hk [fk [fn [-> [Hh [Hl Hf]]]]]]].
   cbn [n_val n_kids n_ty] in *. set (path := ntpath_normpath (group data m 0)) in *.
   apply Forall_app. split.
   - destruct Hh as [[Hd [Hty [s3 [H3 [[Hu [s4 [H4 Hk]]]|[_ ->]]]]]]|[[Hd [Hu [_ [s2 [H2 Hk]]]]]|[_ [_ [_ ->]]]]]; try constructor.
-    + destruct Hcond as [Hc|Hc]; [congruence|].
-      destruct (device_host_position _ _ _ Hd H3 H4) as [g2 [b [Hg [Hp Hg2]]]].
-      assert (Hx : exists x tl, path = SEP :: SEP :: x :: SEP :: tl).
-      { unfold device_prefix4 in Hc. apply orb_true_iff in Hc.
-        destruct Hc as [Hc|Hc]; apply startswith_inv in Hc; destruct Hc as [tl Hc]; eexists _, tl; exact Hc. }
-      destruct Hx as [x [tl Hx]]. rewrite (Hg2 _ _ Hx) in Hp. rewrite Hp.
+    + destruct (device_host_position _ _ _ Hd H3 H4) as [x [_ [b [Hp _]]]]. rewrite Hp.
       eapply host_kid_faithful; [exact Hk|]. rewrite !blen_app. rewrite (blen_upper_unc _ Hu). reflexivity.
-    + destruct (unc_host_position _ _ Hu H2) as [b Hp]. rewrite Hp.
+    + destruct (unc_host_position _ _ Hu H2) as [b [Hp _]]. rewrite Hp.
       eapply host_kid_faithful; [exact Hk|reflexivity].
   - eapply Forall_impl; [|apply (file_kid_ok _ _ _ Hl Hf)]. intros c [_ [Hc _]]. left. exact Hc.
+Qed.
+
+Lemma ext_map_not_net e : ext_map e <> ip_type /\ ext_map e <> DOMAIN_TYPE.
+Proof.
+  unfold ext_map. destruct (beqb e EXT_DLL); [|destruct (beqb e EXT_EXE)]; split; intros H; vm_compute in H; discriminate H.
+Qed.
+
+(* the host child, when there is one, covers exactly the bytes of the value between the backslash that
+   ends the prefix (2 bytes for UNC paths; the 4-byte device prefix, the word UNC in any case and a
+   backslash, together 8 bytes, for device paths) and the next backslash, at sign or the end *)
+Theorem windows_path_node_host_child is_domain data m n c :
+  windows_path_node is_domain data m = Ok n -> In c (n_kids n) ->
+  n_ty c = ip_type \/ n_ty c = DOMAIN_TYPE ->
+  exists pre host,
+    host_at (n_val n) pre host /\ n_st c = blen pre /\ n_en c = blen pre + blen host /\ n_kids c = [] /\
+    ((n_ty n = UNC_PATH_TYPE /\ pre = PFX_UNC) \/
+     (n_ty n = DEVICE_PATH_TYPE /\ blen pre = 8 /\ exists x u, (x = DOT \/ x = 63%N) /\ upper u = UNC_NAME /\
+        pre = [SEP; SEP; x; SEP] ++ u ++ [SEP])) /\
+    ((n_ty c = DOMAIN_TYPE /\ n_val c = host /\ n_obf c = [] /\ is_domain host = true) \/
+     (n_ty c = ip_type /\ parse_ip host = Ok (n_val c, n_obf c, blen host))).
+Proof.
+  intros H Hin Hty. destruct (windows_path_node_inv _ _ _ _ H) as [ty [hk [fk [fn [-> [Hh [Hl Hf]]]]]]].
+  cbn [n_val n_kids n_ty] in *. set (path := ntpath_normpath (group data m 0)) in *.
+  apply in_app_or in Hin. destruct Hin as [Hin|Hin].
+  2:{ exfalso. destruct Hf as [[_ ->]|[_ ->]]; [destruct Hin|]. destruct Hin as [<-|[]]. cbn [n_ty] in Hty.
+      destruct (ext_map_not_net (lower (snd (ntpath_splitext fn)))) as [H1 H2]. destruct Hty; contradiction. }
+  assert (Hkid : forall host off, host_kid_spec is_domain host off hk ->
+            n_st c = off /\ n_en c = off + blen host /\ n_kids c = [] /\
+            ((n_ty c = DOMAIN_TYPE /\ n_val c = host /\ n_obf c = [] /\ is_domain host = true) \/
+             (n_ty c = ip_type /\ parse_ip host = Ok (n_val c, n_obf c, blen host)))).
+  { intros host off [->|[c' [-> [Hs [He [Hk Hc]]]]]]; [destruct Hin|]. destruct Hin as [<-|[]]. auto. }
+  destruct Hh as [[Hd [-> [s3 [H3 [[Hu [s4 [H4 Hk]]]|[_ ->]]]]]]|[[Hd [Hu [-> [s2 [H2 Hk]]]]]|[_ [_ [_ ->]]]]]; try (destruct Hin).
+  - destruct (device_host_position _ _ _ Hd H3 H4) as [x [Hx Hat]].
+    destruct (Hkid _ _ Hk) as [Hs [He [Hkc Hc]]].
+    assert (Hlen : blen ([SEP; SEP; x; SEP] ++ s3 ++ [SEP]) = 8).
+    { rewrite !blen_app, (blen_upper_unc _ Hu). reflexivity. }
+    eexists _, _. split; [exact Hat|]. rewrite Hlen. repeat split; try assumption.
+    right. repeat split. exists x, s3. repeat split; assumption.
+  - pose proof (unc_host_position _ _ Hu H2) as Hat.
+    destruct (Hkid _ _ Hk) as [Hs [He [Hkc Hc]]].
+    eexists _, _. split; [exact Hat|]. change (blen PFX_UNC) with 2. repeat split; try assumption.
+    left. split; reflexivity.
 Qed.
 
 (* the file-name child *)
@@ -453,7 +565,7 @@ Definition windows_node_ok (data : bytes) (m : mtch) (n : node) : Prop :=
   (n_obf n = DOTPATH_OBF <-> blen (n_val n) < blen text) /\
   (n_obf n = [] <-> blen text <= blen (n_val n)) /\
   Forall (child_in_bounds (n_val n)) (n_kids n) /\
-  (n_ty n <> DEVICE_PATH_TYPE \/ device_prefix4 (n_val n) = true -> Forall (child_faithful (n_val n)) (n_kids n)).
+  Forall (child_faithful (n_val n)) (n_kids n).
 
 Theorem find_windows_path_post_spec is_domain data ms ns :
   find_windows_path_post is_domain data ms = Ok ns ->
@@ -472,7 +584,8 @@ Qed.
 Definition count_sep (q : bytes) : nat := List.length (filter (fun c => (c =? SEP)%N) q).
 
 (* assumption on a match text: when it begins with two separators it contains at least four
-   (the device and the UNC alternatives of WINDOWS_PATH_RE both guarantee this) *)
+   (the device and the UNC alternatives of WINDOWS_PATH_RE both guarantee this).  It is sufficient, not
+   necessary: the exact condition, on the normalised path, is in windows_path_node_domain below. *)
 Definition wpath_text_ok (text : bytes) : Prop :=
   startswith (replace_altsep text) PFX_UNC = true -> (4 <= count_sep (replace_altsep text))%nat.
 
@@ -615,10 +728,93 @@ Proof.
   intros m Hm. apply windows_path_node_total. exact Hm.
 Qed.
 
-(* without that assumption the IndexError of segments[3] is reachable for an (artificial) match text
-   of three bytes; no text matched by WINDOWS_PATH_RE is that short *)
+(* ------------------------------------------------------------------ *)
+(* exact domain of windows_path_node, without any assumption on the match: the only exception is the
+   IndexError of segments[4], raised exactly when the normalised path is a device prefix followed by the
+   word UNC (any case) and nothing else.  segments[3] of a device path and segments[2] of a UNC path
+   always exist. *)
+Definition bare_device_unc (path : bytes) : Prop :=
+  exists x u, (x = DOT \/ x = 63%N) /\ path = [SEP; SEP; x; SEP] ++ u /\ upper u = UNC_NAME.
+
+Lemma upper_unc_nosep u : upper u = UNC_NAME -> ~ In SEP u.
+Proof.
+  intros Hu Hin. apply (in_map upper1) in Hin. fold (upper u) in Hin. rewrite Hu in Hin.
+  vm_compute in Hin. destruct Hin as [E|[E|[E|[]]]]; discriminate E.
+Qed.
+
+Lemma bare_device_unc_segments path : bare_device_unc path ->
+  is_device_path path = true /\ exists x u, upper u = UNC_NAME /\ split_on SEP path = [[]; []; [x]; u].
+Proof.
+  intros [x [u [Hx [-> Hu]]]].
+  assert (Hd : is_device_path ([SEP; SEP; x; SEP] ++ u) = true) by (destruct Hx as [->| ->]; reflexivity).
+  split; [exact Hd|]. destruct (device_segments _ Hd) as [x' [rest [_ [Hp Hsp]]]].
+  cbn [app] in Hp. injection Hp as <- <-. exists x, u. split; [exact Hu|]. rewrite Hsp.
+  rewrite (split_on_nosep SEP u (upper_unc_nosep u Hu)). reflexivity.
+Qed.
+
+Theorem windows_path_node_domain is_domain data m :
+  let path := ntpath_normpath (group data m 0) in
+  (bare_device_unc path /\ windows_path_node is_domain data m = Raise index_err) \/
+  (~ bare_device_unc path /\ exists n, windows_path_node is_domain data m = Ok n).
+Proof.
+  intros path. unfold windows_path_node. fold path.
+  destruct (seg_last_total (split_on SEP path) (split_on_nonnil SEP path)) as [fn Hfn].
+  assert (Hfin : forall ty ch, exists n,
+    (do filename <- seg_last (split_on SEP path);
+     let '(_, extension) := ntpath_splitext filename in
+     let children := match extension with
+                     | [] => ch
+                     | _ :: _ => ch ++ [Node (ext_map (lower extension)) filename [] (blen path - blen filename) (blen path) []]
+                     end in
+     Ok (Node ty path (if blen path <? blen (group data m 0) then DOTPATH_OBF else []) (m_start m 0) (m_end m 0) children)) = Ok n).
+  { intros ty ch. rewrite Hfn. cbn [bind]. destruct (ntpath_splitext fn) as [base ext]. destruct ext; eexists; reflexivity. }
+  fold (is_device_path path). destruct (is_device_path path) eqn:Ed.
+  - destruct (device_segments _ Ed) as [x [rest [Hx [Hp Hsp]]]]. rewrite Hsp.
+    pose proof (join_split SEP rest) as Hj.
+    destruct (split_on SEP rest) as [|s3 more] eqn:Er; [exfalso; eapply split_on_nonnil; exact Er|].
+    replace (seg_at ([] :: [] :: [x] :: s3 :: more) 3) with (Ok s3) by reflexivity. cbn [bind].
+    destruct (beqb (upper s3) UNC_NAME) eqn:Eu.
+    + apply beqb_eq in Eu. destruct more as [|s4 more].
+      * left. split; [|reflexivity]. exists x, s3. split; [exact Hx|]. split; [|exact Eu].
+        rewrite Hp. cbn [join] in Hj. rewrite Hj. reflexivity.
+      * right. split.
+        { intros Hb. destruct (bare_device_unc_segments _ Hb) as [_ [x' [u [_ Hs']]]].
+          rewrite Hsp in Hs'. discriminate Hs'. }
+        unfold seg_at. cbn [nth_error bind].
+        destruct (host_children_spec is_domain (before_at s4) 8) as [ks [-> _]]. cbn [bind].
+        rewrite <- Hsp. apply Hfin.
+    + right. split.
+      { intros Hb. destruct (bare_device_unc_segments _ Hb) as [_ [x' [u [Hu Hs']]]].
+        rewrite Hsp in Hs'. assert (s3 = u) by congruence. subst u.
+        apply beqb_neq in Eu. contradiction. }
+      cbn [bind]. rewrite <- Hsp. apply Hfin.
+  - right. split.
+    { intros Hb. destruct (bare_device_unc_segments _ Hb) as [Hd _]. congruence. }
+    destruct (startswith path PFX_UNC) eqn:Eu; [|cbn [bind]; apply Hfin].
+    destruct (startswith_inv _ _ Eu) as [rest Hp]. unfold PFX_UNC in Hp. cbn [app] in Hp.
+    assert (Hsp : split_on SEP path = [] :: [] :: split_on SEP rest) by (rewrite Hp; reflexivity).
+    rewrite Hsp. destruct (split_on SEP rest) as [|s2 more] eqn:Er; [exfalso; eapply split_on_nonnil; exact Er|].
+    unfold seg_at. cbn [nth_error bind].
+    destruct (host_children_spec is_domain (before_at s2) 2) as [ks [-> _]]. cbn [bind].
+    rewrite <- Hsp. apply Hfin.
+Qed.
+
+Corollary find_windows_path_post_total_exact is_domain data ms :
+  Forall (fun m => ~ bare_device_unc (ntpath_normpath (group data m 0))) ms ->
+  exists ns, find_windows_path_post is_domain data ms = Ok ns.
+Proof.
+  intros H. apply mapM_total. eapply Forall_impl; [|exact H].
+  intros m Hm. destruct (windows_path_node_domain is_domain data m) as [[Hb _]|[_ Hn]]; [contradiction|exact Hn].
+Qed.
+
+(* segments[4] is the only index that can be missing (Python: IndexError on a 4-element list) *)
 Example windows_path_node_index_error :
-  windows_path_node (fun _ => false) [92; 92; 46]%N [Some (0, 3)] = Raise index_err.
+  windows_path_node (fun _ => false) [92; 92; 46; 92; 117; 78; 99]%N [Some (0, 7)] = Raise index_err.
+Proof. vm_compute. reflexivity. Qed.
+
+(* two backslashes and a dot: a device path before the fix (IndexError on segments[3]), a UNC path now *)
+Example windows_path_node_short_unc :
+  windows_path_node (fun _ => false) [92; 92; 46]%N [Some (0, 3)] = Ok (Node UNC_PATH_TYPE [92; 92; 46]%N [] 0 3 []).
 Proof. vm_compute. reflexivity. Qed.
 
 (* boolean form of the assumption, for testing *)
@@ -750,28 +946,42 @@ Proof.
 Qed.
 
 (* ------------------------------------------------------------------ *)
-(* FINDING: in the device branch the host child is placed at the constant offset 8, which is right only
-   when the third segment is one byte long.  The UNC alternative of WINDOWS_PATH_RE also matches host
-   names that begin with a dot, and such a path is then classified as a device path.
-   Text (through the real pattern): two backslashes, .abc, backslash, UNC, backslash, 1.2.3.4 *)
-Example device_host_offset_wrong :
-  let data := [92;92;46;97;98;99;92;85;78;67;92;49;46;50;46;51;46;52]%N in
-  exists n c rest,
-    find_windows_path (fun _ => false) data = Ok [n] /\ n_kids n = c :: rest /\
-    n_ty n = DEVICE_PATH_TYPE /\ n_ty c = ip_type /\
-    n_val c = [49;46;50;46;51;46;52]%N /\
-    original (n_val n) c = [78;67;92;49;46;50;46]%N /\
-    ~ child_faithful (n_val n) c.
+(* FIXED DEFECT (formerly documented here as device_host_offset_wrong): the device test used to accept
+   two backslashes and a dot or question mark WITHOUT the third backslash, so a UNC host name that begins
+   with a dot was typed as a device path and its host child, placed at the constant offset 8, covered the
+   wrong bytes.  With the third backslash in the test such a text is a UNC path again and all its children
+   index the right bytes of the value (in general: windows_path_node_children_faithful, now unconditional).
+   The expected values below were printed by the current Python (with the real is_domain, which rejects
+   .abc and accepts .evil.com).
+   Text 1: two backslashes, .abc, backslash, UNC, backslash, 1.2.3.4, backslash, file.txt *)
+Example dot_host_is_unc :
+  let data := [92;92;46;97;98;99;92;85;78;67;92;49;46;50;46;51;46;52;92;102;105;108;101;46;116;120;116]%N in
+  exists n c,
+    find_windows_path (fun _ => false) data = Ok [n] /\ n_ty n = UNC_PATH_TYPE /\ n_val n = data /\
+    n_obf n = [] /\ n_st n = 0 /\ n_en n = 27 /\ n_kids n = [c] /\
+    n_ty c = FILENAME_TYPE /\ n_st c = 19 /\ n_en c = 27 /\
+    n_val c = [102;105;108;101;46;116;120;116]%N /\ original (n_val n) c = n_val c.
 Proof.
-  eexists _, _, _. split; [vm_compute; reflexivity|]. split; [reflexivity|].
-  split; [reflexivity|]. split; [reflexivity|]. split; [reflexivity|]. split; [vm_compute; reflexivity|].
-  intros [H|[_ [o [e H]]]]; vm_compute in H; discriminate H.
+  eexists _, _. split; [vm_compute; reflexivity|]. repeat split.
+Qed.
+
+(* Text 2: two backslashes, .evil.com, backslash, share, backslash, file.txt *)
+Example dot_host_domain_child :
+  let data := [92;92;46;101;118;105;108;46;99;111;109;92;115;104;97;114;101;92;102;105;108;101;46;116;120;116]%N in
+  let host := [46;101;118;105;108;46;99;111;109]%N in
+  exists n c1 c2,
+    find_windows_path (fun h => beqb h host) data = Ok [n] /\ n_ty n = UNC_PATH_TYPE /\ n_val n = data /\
+    n_kids n = [c1; c2] /\
+    n_ty c1 = DOMAIN_TYPE /\ n_st c1 = 2 /\ n_en c1 = 11 /\ n_val c1 = host /\ original (n_val n) c1 = host /\
+    n_ty c2 = FILENAME_TYPE /\ n_st c2 = 18 /\ n_en c2 = 26 /\ original (n_val n) c2 = n_val c2.
+Proof.
+  eexists _, _, _. split; [vm_compute; reflexivity|]. repeat split.
 Qed.
 
 (* ------------------------------------------------------------------ *)
 (* test vectors: the expected values were printed by the Python implementation (is_domain and pe_size
    replaced by the tables / functions below) *)
-Definition ex_is_domain (h : bytes) : bool := existsb (beqb h) [[101;118;105;108;46;99;111;109]%N;[102;105;108;101;46;99;111;109]%N;[115;111;109;101;45;100;111;109;97;105;110;46;99;111;109]%N].
+Definition ex_is_domain (h : bytes) : bool := existsb (beqb h) [[101;118;105;108;46;99;111;109]%N;[102;105;108;101;46;99;111;109]%N;[115;111;109;101;45;100;111;109;97;105;110;46;99;111;109]%N;[46;101;118;105;108;46;99;111;109]%N].
 Definition ex_pe_size (b : bytes) : Z := (((fold_right (fun c a => Z.of_N c + a) 0 (firstn 8 b)) * 7 + blen b) mod 5) * 37.
 (* find_executable_name  'run cmd.exe /c calc.EXE' *)
 Example ex_exe_0 : find_executable_name [114;117;110;32;99;109;100;46;101;120;101;32;47;99;32;99;97;108;99;46;69;88;69]%N = Ok [(Node [101;120;101;99;117;116;97;98;108;101;46;102;105;108;101;110;97;109;101]%N [99;109;100;46;101;120;101]%N [] (4) (11) []);(Node [101;120;101;99;117;116;97;98;108;101;46;102;105;108;101;110;97;109;101]%N [99;97;108;99;46;69;88;69]%N [] (15) (23) [])].
@@ -858,10 +1068,10 @@ Proof. vm_compute. reflexivity. Qed.
 Example ex_win_7 : find_windows_path ex_is_domain [46;46;92;80;117;98;108;105;99;97;116;105;111;110;115;92;84;114;97;118;101;108;66;114;111;99;104;117;114;101;46;112;100;102]%N = Ok [(Node [119;105;110;100;111;119;115;46;112;97;116;104]%N [46;46;92;80;117;98;108;105;99;97;116;105;111;110;115;92;84;114;97;118;101;108;66;114;111;99;104;117;114;101;46;112;100;102]%N [] (0) (34) [Node [102;105;108;101;110;97;109;101]%N [84;114;97;118;101;108;66;114;111;99;104;117;114;101;46;112;100;102]%N [] (16) (34) []])].
 Proof. vm_compute. reflexivity. Qed.
 (* find_windows_path  'x \\\\.abc\\UNC\\1.2.3.4 y' *)
-Example ex_win_8 : find_windows_path ex_is_domain [120;32;92;92;46;97;98;99;92;85;78;67;92;49;46;50;46;51;46;52;32;121]%N = Ok [(Node [119;105;110;100;111;119;115;46;100;101;118;105;99;101;46;112;97;116;104]%N [92;92;46;97;98;99;92;85;78;67;92;49;46;50;46;51;46;52]%N [] (2) (20) [Node [110;101;116;119;111;114;107;46;105;112]%N [49;46;50;46;51;46;52]%N [] (8) (15) [];Node [102;105;108;101;110;97;109;101]%N [49;46;50;46;51;46;52]%N [] (11) (18) []])].
+Example ex_win_8 : find_windows_path ex_is_domain [120;32;92;92;46;97;98;99;92;85;78;67;92;49;46;50;46;51;46;52;32;121]%N = Ok [(Node [119;105;110;100;111;119;115;46;117;110;99;46;112;97;116;104]%N [92;92;46;97;98;99;92;85;78;67;92;49;46;50;46;51;46;52]%N [] (2) (20) [Node [102;105;108;101;110;97;109;101]%N [49;46;50;46;51;46;52]%N [] (11) (18) []])].
 Proof. vm_compute. reflexivity. Qed.
 (* find_windows_path  '\\\\..\\UNC\\evil.com\\file.txt' *)
-Example ex_win_9 : find_windows_path ex_is_domain [92;92;46;46;92;85;78;67;92;101;118;105;108;46;99;111;109;92;102;105;108;101;46;116;120;116]%N = Ok [(Node [119;105;110;100;111;119;115;46;100;101;118;105;99;101;46;112;97;116;104]%N [92;92;46;46;92;85;78;67;92;101;118;105;108;46;99;111;109;92;102;105;108;101;46;116;120;116]%N [] (0) (26) [Node [110;101;116;119;111;114;107;46;100;111;109;97;105;110]%N [101;118;105;108;46;99;111;109]%N [] (8) (16) [];Node [102;105;108;101;110;97;109;101]%N [102;105;108;101;46;116;120;116]%N [] (18) (26) []])].
+Example ex_win_9 : find_windows_path ex_is_domain [92;92;46;46;92;85;78;67;92;101;118;105;108;46;99;111;109;92;102;105;108;101;46;116;120;116]%N = Ok [(Node [119;105;110;100;111;119;115;46;117;110;99;46;112;97;116;104]%N [92;92;46;46;92;85;78;67;92;101;118;105;108;46;99;111;109;92;102;105;108;101;46;116;120;116]%N [] (0) (26) [Node [102;105;108;101;110;97;109;101]%N [102;105;108;101;46;116;120;116]%N [] (18) (26) []])].
 Proof. vm_compute. reflexivity. Qed.
 (* find_windows_path  '\\\\.\\UNC\\host\\share\\..\\..\\file.com' *)
 Example ex_win_10 : find_windows_path ex_is_domain [92;92;46;92;85;78;67;92;104;111;115;116;92;115;104;97;114;101;92;46;46;92;46;46;92;102;105;108;101;46;99;111;109]%N = Ok [(Node [119;105;110;100;111;119;115;46;100;101;118;105;99;101;46;112;97;116;104]%N [92;92;46;92;85;78;67;92;102;105;108;101;46;99;111;109]%N [119;105;110;100;111;119;115;46;100;111;116;112;97;116;104]%N (0) (33) [Node [110;101;116;119;111;114;107;46;100;111;109;97;105;110]%N [102;105;108;101;46;99;111;109]%N [] (8) (16) [];Node [102;105;108;101;110;97;109;101]%N [102;105;108;101;46;99;111;109]%N [] (8) (16) []])].
@@ -874,6 +1084,18 @@ Example ex_win_12 : find_windows_path ex_is_domain [] = Ok [].
 Proof. vm_compute. reflexivity. Qed.
 (* find_windows_path  '\\\\LOCALHOST\\c$\\temp\\..\\..\\..\\x.y' *)
 Example ex_win_13 : find_windows_path ex_is_domain [92;92;76;79;67;65;76;72;79;83;84;92;99;36;92;116;101;109;112;92;46;46;92;46;46;92;46;46;92;120;46;121]%N = Ok [(Node [119;105;110;100;111;119;115;46;117;110;99;46;112;97;116;104]%N [92;92;76;79;67;65;76;72;79;83;84;92;99;36;92;120;46;121]%N [119;105;110;100;111;119;115;46;100;111;116;112;97;116;104]%N (0) (32) [Node [102;105;108;101;110;97;109;101]%N [120;46;121]%N [] (15) (18) []])].
+Proof. vm_compute. reflexivity. Qed.
+(* find_windows_path  '\\\\.abc\\UNC\\1.2.3.4\\file.txt' *)
+Example ex_win_14 : find_windows_path ex_is_domain [92;92;46;97;98;99;92;85;78;67;92;49;46;50;46;51;46;52;92;102;105;108;101;46;116;120;116]%N = Ok [(Node [119;105;110;100;111;119;115;46;117;110;99;46;112;97;116;104]%N [92;92;46;97;98;99;92;85;78;67;92;49;46;50;46;51;46;52;92;102;105;108;101;46;116;120;116]%N [] (0) (27) [Node [102;105;108;101;110;97;109;101]%N [102;105;108;101;46;116;120;116]%N [] (19) (27) []])].
+Proof. vm_compute. reflexivity. Qed.
+(* find_windows_path  '\\\\.evil.com@SSL\\share\\x.exe' *)
+Example ex_win_15 : find_windows_path ex_is_domain [92;92;46;101;118;105;108;46;99;111;109;64;83;83;76;92;115;104;97;114;101;92;120;46;101;120;101]%N = Ok [(Node [119;105;110;100;111;119;115;46;117;110;99;46;112;97;116;104]%N [92;92;46;101;118;105;108;46;99;111;109;64;83;83;76;92;115;104;97;114;101;92;120;46;101;120;101]%N [] (0) (27) [Node [110;101;116;119;111;114;107;46;100;111;109;97;105;110]%N [46;101;118;105;108;46;99;111;109]%N [] (2) (11) [];Node [101;120;101;99;117;116;97;98;108;101;46;102;105;108;101;110;97;109;101]%N [120;46;101;120;101]%N [] (22) (27) []])].
+Proof. vm_compute. reflexivity. Qed.
+(* find_windows_path  '\\\\?\\UNC\\.evil.com\\abc\\x.dll' *)
+Example ex_win_16 : find_windows_path ex_is_domain [92;92;63;92;85;78;67;92;46;101;118;105;108;46;99;111;109;92;97;98;99;92;120;46;100;108;108]%N = Ok [(Node [119;105;110;100;111;119;115;46;100;101;118;105;99;101;46;112;97;116;104]%N [92;92;63;92;85;78;67;92;46;101;118;105;108;46;99;111;109;92;97;98;99;92;120;46;100;108;108]%N [] (0) (27) [Node [110;101;116;119;111;114;107;46;100;111;109;97;105;110]%N [46;101;118;105;108;46;99;111;109]%N [] (8) (17) [];Node [101;120;101;99;117;116;97;98;108;101;46;108;105;98;114;97;114;121;46;102;105;108;101;110;97;109;101]%N [120;46;100;108;108]%N [] (22) (27) []])].
+Proof. vm_compute. reflexivity. Qed.
+(* find_windows_path  '\\\\?abc\\UNC\\evil.com\\x.exe' *)
+Example ex_win_17 : find_windows_path ex_is_domain [92;92;63;97;98;99;92;85;78;67;92;101;118;105;108;46;99;111;109;92;120;46;101;120;101]%N = Ok [(Node [119;105;110;100;111;119;115;46;112;97;116;104]%N [97;98;99;92;85;78;67;92;101;118;105;108;46;99;111;109;92;120;46;101;120;101]%N [] (3) (25) [Node [101;120;101;99;117;116;97;98;108;101;46;102;105;108;101;110;97;109;101]%N [120;46;101;120;101]%N [] (17) (22) []])].
 Proof. vm_compute. reflexivity. Qed.
 (* find_pe_files  'MZ\x00\x00\x00\x00\x00\x00\x00\x00\x00\x00\x00\x00\x00\x00\x00\x00\x00\x00 ... (322 chars) *)
 Example ex_pe_0 : find_pe_files ex_pe_size [77;90;0;0;0;0;0;0;0;0;0;0;0;0;0;0;0;0;0;0;0;0;0;0;0;0;0;0;0;0;0;0;0;0;0;0;0;0;0;0;0;0;0;0;0;0;0;0;0;0;0;0;0;0;0;0;0;0;0;0;64;0;0;0;80;69;0;0;0;0;0;0;0;0;0;0;0;0;0;0]%N = Ok [(Node [112;101;95;102;105;108;101]%N [77;90;0;0;0;0;0;0;0;0;0;0;0;0;0;0;0;0;0;0;0;0;0;0;0;0;0;0;0;0;0;0;0;0;0;0;0;0;0;0;0;0;0;0;0;0;0;0;0;0;0;0;0;0;0;0;0;0;0;0;64;0;0;0;80;69;0;0;0;0;0;0;0;0;0;0;0;0;0;0]%N [] (0) (80) [])].
@@ -909,15 +1131,20 @@ Print Assumptions find_library_post_spec.
 Print Assumptions find_path_post_spec.
 Print Assumptions windows_path_node_inv.
 Print Assumptions windows_path_node_value.
+Print Assumptions windows_path_node_type_iff.
 Print Assumptions windows_path_node_not_longer.
 Print Assumptions windows_path_node_label_iff_changed.
 Print Assumptions windows_path_node_children_in_bounds.
 Print Assumptions windows_path_node_children_faithful.
+Print Assumptions windows_path_node_host_child.
 Print Assumptions windows_path_node_file_child.
 Print Assumptions find_windows_path_post_spec.
 Print Assumptions windows_path_node_total.
 Print Assumptions find_windows_path_post_total.
-Print Assumptions device_host_offset_wrong.
+Print Assumptions windows_path_node_domain.
+Print Assumptions find_windows_path_post_total_exact.
+Print Assumptions dot_host_is_unc.
+Print Assumptions dot_host_domain_child.
 Print Assumptions pe_node_spec.
 Print Assumptions pe_node_span.
 Print Assumptions find_pe_files_post_spec.
